@@ -1,6 +1,7 @@
 pub mod c18;
 pub mod checks;
 pub mod checks2;
+pub mod decoy;
 pub mod driver;
 pub mod eng;
 pub mod gen;
